@@ -32,7 +32,7 @@ FLOOR = {"quick": 20000, "thorough": 20000}
 
 IDENTS = ["_", "__", "k", "v", "self", "it", "itertools", "importlib", "type", "setattr", "hasattr", "iter", "next",
           "tuple", "list", "slice", "globals", "locals", "__import__", "classmethod", "__class__", "operator", "cls", "mcs",
-          "result", "tmp"]
+          "result", "tmp", "builtins", "getattr", "dict", "super"]
 ROLES = ["global", "local", "param", "looptarget", "funcname", "classname", "classattr", "importalias", "comptarget", "nonlocal",
          "comptarget-enclosing", "global-declared-under-local"]
 
@@ -127,27 +127,15 @@ def cell_program(ident, role, feat):
     raise ValueError(role)
 
 
-# which builtin spellings the generated code itself calls for a feature (the recorded finding KF-helper-builtins)
+# which builtin spellings the generated code itself calls for a feature (the recorded finding KF-class-cell-spelling)
 HELPER_TABLE = {
-    'type': ["aug-attr", "class", "class-body-uses", "class-init-subclass", "super0"],
-    'setattr': ["aug-attr", "class-init-subclass", "for-break", "for-break-body-uses", "for-iter-uses", "return-in-loop", "return-in-loop-uses"],
-    'hasattr': ["global-store", "nonlocal-store", "while", "while-else-break", "while-else-test-uses", "while-test-uses"],
-    'iter': ["for-break", "for-break-body-uses", "for-iter-uses", "return-in-loop", "return-in-loop-uses"],
-    'next': ["for-break", "for-break-body-uses", "for-iter-uses", "return-in-loop", "return-in-loop-uses"],
-    'tuple': ["destructure", "destructure-star", "destructure-uses", "chained-destructure", "nested-destructure-order"],
-    'list': ["destructure-star", "destructure-uses", "chained-destructure"],
-    'slice': ["aug-subscript", "aug-uses", "slice-store"],
-    'globals': ["from-import", "global-store", "global-store-uses"],
-    'locals': ["from-import"],
-    '__import__': ["from-import", "import-dotted"],
-    'classmethod': ["class-init-subclass"],
     '__class__': ["class-body-uses"],
 }
 
 
 # (identifier, role) pairs of the same finding that fail whatever the feature: the shadowed-global load itself is spelled
 # with the builtins globals() and __import__('builtins')
-HELPER_ROLE_TABLE = {"globals": ["global-declared-under-local"], "__import__": ["global-declared-under-local"]}
+HELPER_ROLE_TABLE = {}
 
 
 def mkenv():
@@ -169,7 +157,7 @@ def judge_cell(rec, ident, role, feat, cfg):
         rec.note("identifiers held", ident)
         return
     # known: the user binds the spelling of a builtin that the feature's generated code calls
-    kf = findings.by_id("KF-helper-builtins")
+    kf = findings.by_id("KF-class-cell-spelling")
     if kf and ID in kf["properties"] and (feat in HELPER_TABLE.get(ident, ()) or role in HELPER_ROLE_TABLE.get(ident, ())):
         # counterfactual re-check: with the identifier renamed to a neutral one the cell must pass
         src2 = "\n".join(cell_program("zz_neutral", role, feat)) + "\n"
@@ -179,7 +167,7 @@ def judge_cell(rec, ident, role, feat, cfg):
             rec.note("known cells", "%s/%s" % (ident, feat))
             return
     trig = findings.triggered(ID, src=src, cfg=cfg)
-    kid = findings.attribute([k for k in trig if k["id"] != "KF-helper-builtins"], o.status)
+    kid = findings.attribute([k for k in trig if k["id"] != "KF-class-cell-spelling"], o.status)
     if kid:
         rec.known_finding(kid)
         return
